@@ -9,6 +9,7 @@ import CruxVerif.Lemmas.FreshUse
 import CruxVerif.Lemmas.RRun
 import CruxVerif.Lemmas.Park
 import CruxVerif.Lemmas.GPark
+import CruxVerif.Lemmas.RCore
 namespace Props.C07
 open M.Rt
 
@@ -58,6 +59,34 @@ theorem evict_sound_reachable (c : Cmd) (canon : Bool) (acts : List M.Hosts.Acti
   obtain ⟨t, b, _, hg, _, hd⟩ := evicted_task_is_dead _ loopFuel cid tid d.w w' h
   refine ⟨t, b, hg, fun hf => hd hf ?_⟩
   exact (M.Hosts.runDirect_wf c canon acts os d hrun).t cid t (M.Slab.mem_values_of_get _ _ _ hg)
+
+/-- the same under the CORE host and behind the BRIDGE, for EVERY app (any commands, any legacy capability tasks): in every
+    state reached after any history of events, resolutions, drops, aborts, probes — and, behind the Bridge, raw and
+    undecodable inputs — a host-free task that `run_task` discards as `Cancelled` was suspended only at closed requests
+    (invariant `WFC`: commands' tasks, the executor's legacy tasks and its spawn queue are in range; Lemmas/RCore.lean;
+    lifted to the Bridge by `bridge_preserves_core_invariants`) -/
+theorem evict_sound_reachable_core (prog : M.Hosts.Prog) (canon : Bool) (acts : List M.Hosts.Action) (os : List M.Hosts.Obs)
+    (h : M.Hosts.CoreHost) (hr : M.Hosts.runCore prog canon acts = some (os, h)) (cid tid : Nat) (w' : World)
+    (hc : runTask cid tid h.k.w = some (.cancelled, w')) :
+    ∃ t b, (h.k.w.cmd cid).tasks.get? tid = some t ∧ (hostFreeB t.fut = true → deadOnlyB b = true) := by
+  obtain ⟨t, b, _, hg, _, hd⟩ := evicted_task_is_dead _ loopFuel cid tid h.k.w w' hc
+  refine ⟨t, b, hg, fun hf => hd hf ?_⟩
+  exact (M.Hosts.runCore_inv M.Hosts.WFC_ops prog (M.Hosts.WFC_init prog) canon acts os h hr).w.t cid t
+    (M.Slab.mem_values_of_get _ _ _ hg)
+
+theorem evict_sound_reachable_bridge (prog : M.Hosts.Prog) (canon : Bool) (acts : List M.Hosts.Action)
+    (os : List M.Hosts.Obs) (h : M.Hosts.BridgeHost) (hr : M.Hosts.runBridge prog canon acts = some (os, h))
+    (cid tid : Nat) (w' : World) (hc : runTask cid tid h.b.core.w = some (.cancelled, w')) :
+    ∃ t b, (h.b.core.w.cmd cid).tasks.get? tid = some t ∧ (hostFreeB t.fut = true → deadOnlyB b = true) := by
+  obtain ⟨t, b, _, hg, _, hd⟩ := evicted_task_is_dead _ loopFuel cid tid h.b.core.w w' hc
+  refine ⟨t, b, hg, fun hf => hd hf ?_⟩
+  exact (M.Hosts.runBridge_inv M.Hosts.WFC_ops prog (M.Hosts.WFC_init prog) canon acts os h hr).w.t cid t
+    (M.Slab.mem_values_of_get _ _ _ hg)
+
+/-- freshness of waker serials behind the Bridge as well (the third host) -/
+theorem serials_fresh_bridge (prog : M.Hosts.Prog) (canon : Bool) (acts : List M.Hosts.Action) (os : List M.Hosts.Obs)
+    (h : M.Hosts.BridgeHost) (hr : M.Hosts.runBridge prog canon acts = some (os, h)) : SOk h.b.core.w :=
+  M.Hosts.runBridge_fresh prog canon acts os h hr
 
 /-- the invariant itself: in every reachable world every stored task of every command mentions only leaves and join handles
     that exist -/
